@@ -10,7 +10,7 @@ from pwv.core import Result, lib
 ID = 'C14'
 RULE = ('Hypothesis draws an ordered pair (column wavelet, row wavelet), mostly different wavelets of '
         'different lengths, the filter form (4-tuple, 2-tuple, name), mode (5), J in 1..3, non-square H x W '
-        'incl. odd and shorter than one of the filters, N, C, content recipes. Oracles: pywt.wavedec2 / '
+        'incl. odd and shorter than one of the filters, N, C, content recipes; for same-length pairs the filters may also arrive through load_state_dict in a module constructed from one name / 2-tuple and used once. Oracles: pywt.wavedec2 / '
         'waverec2 with one wavelet per axis (operator on basis inputs + dense inputs, a dense pyramid with one level given as None), the functional '
         'afb2d/sfb2d with the same four filters (J=1), and the transposition relation '
         'DWT[(a,b)](x) = swap_lh_hl(DWT[(b,a)](x^T))^T. Non-trivial = column wavelet != row wavelet. '
@@ -39,6 +39,12 @@ def _case(draw, unit):
         wr = pick if pick != wc else pool[(pool.index(wc) + 1 + off) % len(pool)]
     else:
         wr = wc
+    born = 'direct'
+    if form == '4tuple' and draw(st.integers(0, 3)) == 0 and dwtu.sibling(wc):
+        # a same-length pair, so that the filters can also arrive through load_state_dict in a module that was
+        # constructed from a single name / 2-tuple (one wavelet for both axes) and used once
+        wr = dwtu.sibling(wc)
+        born = draw(st.sampled_from(['name', '2tuple', 'direct']))
     mode = draw(st.sampled_from(dwtu.MODES5))
     J = draw(st.sampled_from([1, 1, 2, 3]))
     Lc, Lr = dwtu.flen(wc), dwtu.flen(wr)
@@ -50,7 +56,7 @@ def _case(draw, unit):
             J = 1
         H = max(H, dwtu.even_up(Lc) * 2 ** (J - 1))
         W = max(W, dwtu.even_up(Lr) * 2 ** (J - 1))
-    return {'wcol': wc, 'wrow': wr, 'form': form, 'mode': mode, 'J': J, 'size': [H, W],
+    return {'wcol': wc, 'wrow': wr, 'form': form, 'born': born, 'mode': mode, 'J': J, 'size': [H, W],
             'N': draw(st.sampled_from([1, 2])), 'C': draw(st.sampled_from([1, 2, 3])),
             'rx': draw(core.recipe_strategy()), 'k': draw(st.integers(0, 10**6))}
 
@@ -107,6 +113,18 @@ def run_case(case):
             if isinstance(arrs, tuple):
                 for a_ in arrs:
                     a_[...] = 7.0               # the caller reuses its arrays: the modules must own copies
+        if case.get('born', 'direct') != 'direct' and mode != 'reflect':
+            r.label('filters_loaded_into_single_wavelet_module')
+            one = {**case, 'wrow': wc, 'form': case['born']}
+
+            def warm_f(m):
+                m(torch.ones(1, 1, 2 * Lc + 2, 2 * Lc + 2))
+
+            def warm_i(m):
+                k_ = 2 * Lc + 2
+                m((torch.ones(1, 1, k_, k_), [torch.ones(1, 1, 3, k_, k_)]))
+            fwd = dwtu.reused_module(lambda: fwd, lambda: DWTForward(J=J, wave=_filters(one, 'dec'), mode=mode), warm_f)
+            inv = dwtu.reused_module(lambda: inv, lambda: DWTInverse(wave=_filters(one, 'rec'), mode=mode), warm_i)
         fwd_sw = DWTForward(J=J, wave=(_filters({**case, 'wcol': wr, 'wrow': wc, 'form': '4tuple'}, 'dec')),
                             mode=mode)
 
